@@ -156,12 +156,12 @@ pub fn run(out: &mut Out, seed: u64, thorough: bool) {
     let mut rng = Rng::new(seed);
     out.ev(json!({"ev":"case","n":0,"comp":"codec","what":"values"}));
     // (a) exhaustive small values, (b) lattice, (c) random 64-bit values of every magnitude
-    let small: u64 = if thorough { 1 << 14 } else { 300 };
+    let small: u64 = if thorough { 1 << 14 } else { 1500 };
     for v in 0..small { unsigned_value(out, v); }
-    for v in 0..(if thorough { 1i64 << 13 } else { 200 }) { signed_value(out, v); signed_value(out, -v - 1); }
+    for v in 0..(if thorough { 1i64 << 13 } else { 700 }) { signed_value(out, v); signed_value(out, -v - 1); }
     let lat = lattice();
     for &v in &lat { unsigned_value(out, v); signed_value(out, v as i64); }
-    let nrand = if thorough { 20000 } else { 300 };
+    let nrand = if thorough { 20000 } else { 1500 };
     for _ in 0..nrand {
         let bits = rng.range(1, 64);
         let v = rng.next_u64() >> (64 - bits);
@@ -180,7 +180,7 @@ pub fn run(out: &mut Out, seed: u64, thorough: bool) {
             for c in [0u8, 1, 0x7f, 0x80, 0xff] { slice(out, &[a, c], false); payload_slice(out, &[a, c]); }
         }
     }
-    let nsl = if thorough { 40000 } else { 1200 };
+    let nsl = if thorough { 40000 } else { 8000 };
     for i in 0..nsl {
         let len = rng.range(0, 9);
         let mut s = rng.bytes(len);
@@ -198,11 +198,11 @@ pub fn run(out: &mut Out, seed: u64, thorough: bool) {
                  0x7f7f_ffff, 0x7f80_0000, 0xff80_0000, 0x7fc0_0000, 0x7f80_0001, 0xffc0_1234, 0x0012_3456, 0x8000_0001] {
         payload_slice(out, &bits.to_be_bytes());
     }
-    for _ in 0..(if thorough { 5000 } else { 200 }) { let x = rng.next_u64() as u32; payload_slice(out, &x.to_be_bytes()); 
+    for _ in 0..(if thorough { 5000 } else { 1000 }) { let x = rng.next_u64() as u32; payload_slice(out, &x.to_be_bytes()); 
         let sub = (rng.next_u64() as u32) & 0x807f_ffff; payload_slice(out, &sub.to_be_bytes()); }
     out.ev(json!({"ev":"case","n":2,"comp":"codec","what":"writer"}));
     for &v in &lat { written_value(out, "write_uint", v); written_value(out, "write_int", v); written_value(out, "write_float", v); }
-    for _ in 0..(if thorough { 5000 } else { 200 }) {
+    for _ in 0..(if thorough { 5000 } else { 1000 }) {
         let bits = rng.range(1, 64);
         let v = rng.next_u64() >> (64 - bits);
         written_value(out, "write_uint", v);
